@@ -231,6 +231,46 @@ CLAIMED["C19"] = (
     "DESIGN.md §4 C19",
 )
 
+CLAIMED["C01"] = (
+    "PARTIAL. Proved: a Python value semantics in Lean (None/bool/int/abstract float incl. NaN and -0.0/str/flat lists and tuples; ==, "
+    "<, in, and/or/not, conditional, len, min/max, sorted, casts, slicing, isinstance) and, for 32 value-level rewrite rules of 14 "
+    "checks (FURB108, 109, 110, 114, 115, 123, 124, 136, 143, 145, 149, 168, 169, 171), a theorem that the old and the new expression "
+    "have the same observable outcome (value with type, or both raise; truth value in condition position) for EVERY assignment of "
+    "values of the declared types (`Sound`), plus 4 refutations by witness where the same rewrite is unsound on another part of the "
+    "domain the check accepts (136 bool/int tie, 143 -0.0, 145 tuple.copy(), 123 int(True)); decision tables inside the checks "
+    "(FUNC_TABLE, is_truthy, IS_INT_COMPARISON_TRUTHY, FUNC_NAME_MAPPING) are regenerated and kernel-checked against the rules. Ties: the "
+    "model evaluator is compared with CPython's eval on ~1.1k sweeps per run and refurb is checked to really propose each rule's `new`. "
+    "NOT proved: the other checks (standard library / OS / user classes / statement-level) — covered only by the execution oracle: 175 "
+    "idiom functions for 60 checks are linted, each suggested rewrite is spliced in at the reported span and both versions executed "
+    "over typed value sweeps (value+type, raised-or-not, argument state, stdout).",
+    COMMON_NOTE
+    + "Modelled, not verified: no aliasing/object identity (so `in` is equality-based: theorems carry a NaN-free guard, the NaN identity "
+    "difference is a recorded finding), floats are a three-kind abstraction, no user-defined classes, str()/int() of other classes not "
+    "modelled. Nine recorded behaviour findings (NaN identity, ties, -0.0, tuple.copy, log rounding, in-place rewrites vs aliases, "
+    "bool/int, FURB121 tuple operand). Documented caveats (116 negative numbers, 179 iterator) are excluded as the property says, with "
+    "the docstring sentence checked on every run.",
+    "Lean 4 proof (per-rule semantic equivalence over a Python value model; witness refutations; decide over regenerated tables) + evaluator/CPython and rule/refurb correspondence + rewrite-and-execute oracle",
+    "DESIGN.md §4 C01",
+)
+CLAIMED["C16"] = (
+    "For every module forest and every list of --load targets (any length, duplicates, a package plus its own submodule in either "
+    "order, the built-in package or anything inside it) get_modules is proved to be first-occurrence dedup of the walks: each reachable "
+    "check module exactly once, nothing else, same list when a covered target is added (getModules_eq, each_leaf_at_most_once, "
+    "reachable_exactly_once, spelling_irrelevant). Proved: a module whose error class is not selected is in no call the visitor makes "
+    "and is not even validated; the first selected module with an invalid signature ends load_checks with its own located error "
+    "(file:line: reason, one line, exit 1); a selected valid check is registered exactly once per node type it names; the parameter-count "
+    "arity rule (today's repaired code) is right for every accepted check (arity_right), the old __annotations__ rule is refuted; a "
+    "non-importable target is a one-line error. 77 theorems. Model tied to refurb on ~2.4k (quick) / ~14k (thorough) generated plugin "
+    "trees x target lists x selections in fresh processes, all 93 built-in signatures, and 100-540 real CLI runs with call logs.",
+    COMMON_NOTE
+    + "Trusted: pkgutil listing order as transcribed; module identity = dotted name; inspect.signature/__annotations__ of plain defs; "
+    "selection = C09's shouldLoad; the visited node sequence is a parameter (C04). Not modelled: classes/partials as `check`, edited "
+    "__annotations__, sub-packages failing with ImportError, Error classes without `code`, relative --load names. Two recorded findings "
+    "(keyword-only settings, --load \"\").",
+    "fold-invariant refinement to a `loaded`-free spec; induction over a sibling-encoded forest; Except-bind case analysis; real-package generation with a subprocess worker and a CLI call-log oracle",
+    "DESIGN.md §4 C16",
+)
+
 NOT_YET = "check not built yet in this round (work in progress; see DESIGN.md §8 order of work)"
 
 
